@@ -51,7 +51,8 @@ CONSTANTS
   Lag,            \* core.BlockHashLag
   L2PerPrune,     \* pruner.WithL2HeadsPerPrune
   AssumeFinality,
-  AssumeSlowL1
+  AssumeSlowL1,
+  FixHashChecks   \* FALSE = the code as it is; TRUE = candidate repair: the pruner compares HASHES with the local chain
 
 VARIABLES
   src,       \* the source's current chain (sequence of tags)
@@ -69,7 +70,7 @@ VARIABLES
   notify,    \* sync: stored block not yet sent on newHeads (0: none)
   stuck,     \* sync: RevertHead failed (see RevertFails)
   hslot,     \* pruner's newHeads subscription slot (tag, 0: empty)
-  lslot,     \* pruner's L1-head subscription slot (height, -1: empty)
+  lslot,     \* pruner's L1-head subscription slot (tag of the block L1 announced, 0: empty)
   pr,        \* pruner goroutine
   pending,   \* pendingL2Heads
   keepMax,   \* ghost: highest keep-from decided (or seeded) since the last restart
@@ -115,7 +116,7 @@ Init ==
   /\ local = <<>> /\ data = {} /\ hdrs = {}
   /\ l1 = NoL1 /\ l1pend = NoL1 /\ memFloor = 0
   /\ fetched = 0 /\ notify = 0 /\ stuck = FALSE
-  /\ hslot = 0 /\ lslot = -1 /\ pr = IdlePr /\ pending = 0 /\ keepMax = 0
+  /\ hslot = 0 /\ lslot = 0 /\ pr = IdlePr /\ pending = 0 /\ keepMax = 0
   /\ pc = -1 /\ vw = IdleVw /\ nViews = 0 /\ restarts = 0 /\ perr = FALSE
 
 \* ------------------------------------------------------------------ source
@@ -147,7 +148,7 @@ L1Announce(n) ==
   /\ n > fin /\ n < Len(src)
   /\ AssumeSlowL1 => Digested
   /\ l1pend' = [n |-> n, tag |-> src[n + 1]]
-  /\ lslot' = IF lslot = -1 THEN n ELSE lslot
+  /\ lslot' = IF lslot = 0 THEN src[n + 1] ELSE lslot
   /\ fin' = n /\ nL1' = nL1 + 1
   /\ UNCHANGED <<src, blk, nReorgs, local, data, hdrs, l1, memFloor, fetched, notify, stuck,
                  hslot, pr, pending, keepMax, pc, vw, nViews, restarts, perr>>
@@ -215,8 +216,8 @@ PrunerRecvHead ==
                  lslot, pending, keepMax, pc, vw, nViews, restarts, perr>>
 
 PrunerRecvL1 ==
-  /\ pr.st = "idle" /\ lslot # -1
-  /\ pr' = [st |-> "l1", ev |-> lslot, keep |-> 0] /\ lslot' = -1
+  /\ pr.st = "idle" /\ lslot # 0
+  /\ pr' = [st |-> "l1", ev |-> lslot, keep |-> 0] /\ lslot' = 0
   /\ UNCHANGED <<src, blk, nReorgs, fin, nL1, local, data, hdrs, l1, l1pend, memFloor, fetched, notify, stuck,
                  hslot, pending, keepMax, pc, vw, nViews, restarts, perr>>
 
@@ -232,11 +233,14 @@ PrunerRaise ==
   /\ UNCHANGED <<src, blk, nReorgs, fin, nL1, local, data, hdrs, l1, l1pend, fetched, notify, stuck,
                  hslot, lslot, pending, pc, vw, nViews, restarts, perr>>
 
+\* the block is (still) the local chain's block at its height
+OnLocal(t) == blk[t].h < Len(local) /\ local[blk[t].h + 1] = t
+
 \* onNewBlock(block): the L1 head is read from the database
 PrunerOnNewHead ==
   /\ pr.st = "head"
   /\ LET n == blk[pr.ev].h IN
-     IF l1.n = -1 \/ l1.n <= n \/ n < Retained
+     IF l1.n = -1 \/ l1.n <= n \/ n < Retained \/ (FixHashChecks /\ ~OnLocal(pr.ev))
      THEN pr' = IdlePr /\ UNCHANGED <<pending, memFloor, keepMax>>
      ELSE IF pending + 1 < L2PerPrune
           THEN pr' = IdlePr /\ pending' = pending + 1 /\ UNCHANGED <<memFloor, keepMax>>
@@ -247,8 +251,8 @@ PrunerOnNewHead ==
 \* onNewL1Head(l1Head): the L1 head is the event's, the chain height is read from the database
 PrunerOnL1Head ==
   /\ pr.st = "l1"
-  /\ LET n == pr.ev IN
-     IF local = <<>> \/ n >= HeadH \/ n < Retained
+  /\ LET n == blk[pr.ev].h IN
+     IF local = <<>> \/ n >= HeadH \/ n < Retained \/ (FixHashChecks /\ ~OnLocal(pr.ev))
      THEN pr' = IdlePr /\ UNCHANGED <<pending, memFloor, keepMax>>
      ELSE pending' = 0 /\ Decide(n - Retained) /\ UNCHANGED <<memFloor, keepMax>>
   /\ UNCHANGED <<src, blk, nReorgs, fin, nL1, local, data, hdrs, l1, l1pend, fetched, notify, stuck,
@@ -318,7 +322,7 @@ Restart ==
   /\ restarts < MaxRestarts
   /\ restarts' = restarts + 1
   /\ fetched' = 0 /\ notify' = 0 /\ stuck' = FALSE
-  /\ hslot' = 0 /\ lslot' = -1 /\ pr' = IdlePr /\ pending' = 0
+  /\ hslot' = 0 /\ lslot' = 0 /\ pr' = IdlePr /\ pending' = 0
   /\ l1pend' = NoL1
   /\ memFloor' = SeedFloor /\ keepMax' = Oldest
   /\ pc' = -1 /\ vw' = IdleVw
@@ -360,7 +364,7 @@ TypeOK ==
   /\ Len(src) \in 1..MaxLen /\ Len(local) \in 0..MaxLen /\ Len(blk) \in 1..MaxTag
   /\ data \subseteq 0..(MaxLen - 1) /\ hdrs \subseteq 0..(MaxLen - 1)
   /\ l1.n \in Heights /\ l1pend.n \in Heights /\ fin \in Heights
-  /\ memFloor \in 0..MaxLen /\ fetched \in Tags /\ notify \in Tags /\ hslot \in Tags /\ lslot \in Heights
+  /\ memFloor \in 0..MaxLen /\ fetched \in Tags /\ notify \in Tags /\ hslot \in Tags /\ lslot \in Tags
   /\ pr.st \in {"idle", "head", "l1", "raise", "prune"}
   /\ stuck \in BOOLEAN /\ perr \in BOOLEAN
 
